@@ -251,6 +251,9 @@ func TestC15(t *testing.T) {
 				c.c15Shared(s)
 				return
 			}
+			if expr == "prompt-print" || expr == "abrupt-end" {
+				return // re-run by the sub-checks themselves on every run
+			}
 			if expr == "long-source-line" {
 				return // re-run by the sub-check itself on every run
 			}
@@ -600,6 +603,55 @@ func TestC15(t *testing.T) {
 					}
 				}
 			}
+		})
+		// দেখাও at the interactive prompt is দেখাও: the same text, in NFC, newline-terminated, whether the statement
+		// stands at the top level of the line, in a block, an arm, a loop or a function called from the line
+		c.Sub("prints-at-the-prompt", func(s *Sub) {
+			P := bn.KwPrint
+			strs := []string{"plain", "\u09a1\u09bc", "\u09dc", "\u09af\u09bc\u09be", "\u09df", "\u0995\u09c7\u09be", "\u0995\u09cb", "e\u0301", "\u00e9", "a\u0323\u0302", "\u09a2\u09bc", "\u09dd", "\u0995\u09c7\u09d7"}
+			var k int64
+			for _, str := range strs {
+				k++
+				if !c.Mine(k) {
+					continue
+				}
+				q := "\"" + str + "\""
+				n := norm.NFC.String(str)
+				type lw struct{ line, want string }
+				cases := []lw{
+					{P + " " + q + ";", n + "\n"},
+					{P + " [" + q + "];", "[" + n + "]\n"},
+					{P + " \"x\" + 1.5 + " + q + ";", norm.NFC.String("x1.5"+str) + "\n"},
+					{bn.KwVar + " v = " + q + "; " + P + " v;", n + "\n"},
+					{"{ " + P + " " + q + "; }", n + "\n"},
+					{bn.KwIf + " (" + bn.KwTrue + ") " + P + " " + q + ";", n + "\n"},
+					{bn.KwFor + " (" + bn.KwVar + " i = 0; i < 2; i = i + 1) " + P + " " + q + ";", n + "\n" + n + "\n"},
+					{bn.KwFun + " show() { " + P + " " + q + "; } show();", n + "\nnil\n"},
+					{P + " {k: " + q + "};", "map[k:" + n + "]\n"},
+					{P + " 12.5;", "12.5\n"},
+				}
+				var lines []string
+				for _, cs := range cases {
+					lines = append(lines, cs.line)
+				}
+				parts, status, raw, ok := c.c20Session(lines, true)
+				c.Ev.EnumCase("prints-at-the-prompt", true, func() string { return fmt.Sprintf("%q in %d forms", str, len(cases)) }, "prompt-print")
+				bad := ""
+				if !ok || status != 0 || len(parts) != len(lines)+2 {
+					bad = fmt.Sprintf("a session of %d lines must show %d prompts and end with status 0 (status %d, %d prompts)", len(lines), len(lines)+1, status, len(parts)-1)
+				} else {
+					for i, cs := range cases {
+						if parts[i+1] != cs.want {
+							bad = fmt.Sprintf("the line %q answered %q (%+q) instead of %q (%+q)", cs.line, parts[i+1], parts[i+1], cs.want, cs.want)
+							break
+						}
+					}
+				}
+				if bad != "" {
+					s.Violation(Replay{Check: "print", Sig: "prompt-print", Source: strings.Join(lines, "\n"), Extra: map[string]string{"expr": "prompt-print"}, Note: bad, Observed: fmt.Sprintf("status=%d output=%+q", status, clip(raw, 500))})
+				}
+			}
+			c.Ev.MarkExhaustive(fmt.Sprintf("%d strings (NFC-unstable spellings among them) x 10 statement forms at the prompt", len(strs)))
 		})
 		c.Sub("shared-containers", func(s *Sub) {
 			if c.Shard != 0 {
